@@ -2,7 +2,6 @@ package harness
 
 import (
 	"fmt"
-	"math/big"
 	"sort"
 
 	"github.com/irismod/service/types"
@@ -72,9 +71,9 @@ type eligibility struct {
 // "stake"; when a governance change has moved the base denomination elsewhere no exchange-rate
 // service is registered, so no price can be expressed in the base denomination and nobody
 // qualifies (the module announces "no_exchange_rate" and the batch is skipped).
-func eligible(rc types.RequestContext, bindSnap, volSnap *Snapshot, tNs int64, baseDenom string) eligibility {
+func eligible(rc types.RequestContext, bindSnap, volSnap *Snapshot, tNs int64, cfg Config) eligibility {
 	var el eligibility
-	cap := stakeOf(rc.ServiceFeeCap)
+	cap := mustI64(rc.ServiceFeeCap.AmountOf(cfg.baseDenom()))
 	for _, p := range rc.Providers {
 		ph := hx(p)
 		b, ok := bindSnap.Binds[bkey(rc.ServiceName, ph)]
@@ -95,11 +94,11 @@ func eligible(rc types.RequestContext, bindSnap, volSnap *Snapshot, tNs int64, b
 			el.Unparsed = true
 			continue
 		}
-		if baseDenom != "stake" {
+		if !cfg.Priceable(rp) {
 			el.ExclNoRate++
 			continue
 		}
-		price := rp.Fee(tNs, volOf(volSnap, hx(rc.Consumer), rc.ServiceName, ph))
+		price := cfg.FeeOf(rp, tNs, volOf(volSnap, hx(rc.Consumer), rc.ServiceName, ph))
 		if price > cap {
 			el.ExclPrice++
 			continue
@@ -145,8 +144,10 @@ func (o *c06) Step(r *StepRec) []Violation {
 		if !ok {
 			rc = post.Ctxs[cid]
 		}
-		if fee, cap := stakeOf(rq.ServiceFee), stakeOf(rc.ServiceFeeCap); fee > cap {
-			o.fail("c06:cap", "request %s carries fee %d above the cap %d", short(id), fee, cap)
+		for _, fc := range rq.ServiceFee {
+			if fc.Amount.GT(rc.ServiceFeeCap.AmountOf(fc.Denom)) {
+				o.fail("c06:cap", "request %s carries fee %s above the cap %s", short(id), rq.ServiceFee, rc.ServiceFeeCap)
+			}
 		}
 	}
 	if r.Action.Kind != KEndBlock {
@@ -173,7 +174,7 @@ func (o *c06) Step(r *StepRec) []Violation {
 		if totalReached(rc) {
 			continue // no further batch is due (C10); nothing to say about eligibility
 		}
-		el := eligible(rc, post, pre, r.TimeNs, o.w.cfg.baseDenom())
+		el := eligible(rc, post, pre, r.TimeNs, o.w.cfg)
 		if el.Unparsed {
 			o.hit("unparsed_pricing")
 			continue
@@ -232,7 +233,7 @@ func (o *c06) Step(r *StepRec) []Violation {
 		case exists && prc.State == stPaused && prc.BatchCounter == rc.BatchCounter:
 			outcomes["paused"] = true
 			o.hit("paused_insufficient_funds")
-			bal := post.Bal[hx(rc.Consumer)]
+			bal := o.w.cfg.balIn(post, hx(rc.Consumer))
 			if !qualifies || rc.SuperMode || el.Total <= bal {
 				o.fail("c06:paused", "context %s paused for funds: qualifies=%v super=%v total=%d consumer balance=%d", short(cid), qualifies, rc.SuperMode, el.Total, bal)
 			}
@@ -305,7 +306,10 @@ func (o *c07) Step(r *StepRec) []Violation {
 		if !ok {
 			rc = post.Ctxs[cid]
 		}
-		fee := stakeOf(rq.ServiceFee)
+		fee := mustI64(rq.ServiceFee.AmountOf(o.w.cfg.baseDenom()))
+		if !rc.SuperMode && (len(rq.ServiceFee) != 1 || rq.ServiceFee[0].Denom != o.w.cfg.baseDenom()) {
+			o.fail("c07:denom", "request %s carries fee %q, not an amount of the base denomination %s", short(id), rq.ServiceFee, o.w.cfg.baseDenom())
+		}
 		if rc.SuperMode {
 			o.hit("super_mode_request")
 			if len(rq.ServiceFee) != 0 {
@@ -328,13 +332,20 @@ func (o *c07) Step(r *StepRec) []Violation {
 			continue
 		}
 		vol := volOf(pre, hx(rc.Consumer), rc.ServiceName, hx(rq.Provider))
-		want := rp.Fee(r.TimeNs, vol)
-		if fee != want && !rp.FeeAcceptable(r.TimeNs, vol, big.NewInt(fee)) {
+		if !o.w.cfg.Priceable(rp) {
+			o.fail("c07:fee", "request %s issued although the price %q cannot be expressed in the base denomination", short(id), b.Pricing)
+			continue
+		}
+		if rp.Denom != o.w.cfg.baseDenom() {
+			o.hit("price_in_foreign_token")
+		}
+		want := o.w.cfg.FeeOf(rp, r.TimeNs, vol)
+		if !o.w.cfg.FeeOK(rp, r.TimeNs, vol, fee) {
 			o.fail("c07:fee", "request %s: fee %d, published price is %d (base %d, time discount %s, volume %d discount %s)",
 				short(id), fee, want, rp.Base, rp.DiscountAt(r.TimeNs).RatString(), vol, rp.DiscountFor(vol).RatString())
 		}
-		if fee > max64(rp.Base, 1) {
-			o.fail("c07:bound", "request %s: fee %d exceeds max(base %d, 1)", short(id), fee, rp.Base)
+		if bb := o.w.cfg.BaseInBase(rp); fee > max64(bb, 1) {
+			o.fail("c07:bound", "request %s: fee %d exceeds max(base %d, 1)", short(id), fee, bb)
 		}
 		inWin := rp.DiscountAt(r.TimeNs).Cmp(ratOne) != 0
 		inVol := rp.DiscountFor(vol).Cmp(ratOne) != 0
